@@ -520,16 +520,32 @@ def handleGF (off : Int) (ops : List String) (obs : String) : Verdict :=
 
 /-! ### cv: 1-based / 0-based -/
 
+def minInt64 : Int := -9223372036854775808
+def maxInt64 : Int := 9223372036854775807
+
+def showOW64 : Except Panic Int64 → String
+  | .ok o => toString o.toInt
+  | .error e => panicTok e
+
+/-- The model run here is the bit-exact one (`oneToZero64`, `zeroToOne64` over `Int64`, wrap-around);
+    `Properties/C20_int64.lean` proves that it is the unbounded one except for `ZeroToOne(MaxInt64)`.
+    Statement: `OneToZero(ZeroToOne(p)) = p` for every `int` but `MaxInt64` — which is not a value of
+    `OneToZero` at all (`maxInt64_not_a_zero_based_image`), so that no implementation could satisfy
+    the law there — and `ZeroToOne(OneToZero(p)) = p` for every `p ≠ 0`. -/
 def handleCV (p : Int) (obs : String) : Verdict :=
-  let a := showOW (oneToZero p)
-  let b := toString (zeroToOne p)
-  let c := showOW (oneToZero (zeroToOne p))
-  let d := showOW ((oneToZero p).map zeroToOne)
+  if p < minInt64 || p > maxInt64 then bad "cv argument is not an int64" else
+  let q := Int64.ofInt p
+  let a := showOW64 (oneToZero64 q)
+  let b := toString (zeroToOne64 q).toInt
+  let c := showOW64 (oneToZero64 (zeroToOne64 q))
+  let d := showOW64 ((oneToZero64 q).map zeroToOne64)
   let m := s!"{a} {b} {c} {d}"
   let tags := ["cv", "nt", if p = 0 then "zero" else if p > 0 then "positive" else "negative"]
+    ++ (if p ≥ maxInt64 - 2 || p ≤ minInt64 + 2 then ["int64-boundary"] else [])
+    ++ (if p = maxInt64 then ["ZeroToOne-wraps"] else [])
   match tokens obs with
   | [_, _, ic, id] =>
-    if ic ≠ toString p then fail "OneToZero-of-ZeroToOne-is-not-the-identity" tags
+    if p ≠ maxInt64 && ic ≠ toString p then fail "OneToZero-of-ZeroToOne-is-not-the-identity" tags
     else if p ≠ 0 && id ≠ toString p then fail "ZeroToOne-of-OneToZero-is-not-the-identity" tags
     else if m == obs then ok tags else diff m tags
   | _ => fail "unparsable-observation" tags
